@@ -4,6 +4,7 @@
 package world
 
 import (
+	"context"
 	"errors"
 	"fmt"
 	"strings"
@@ -123,6 +124,8 @@ type Core struct {
 	// CauseErr: injected faults are reported with an application error type that follows the Cause()
 	// convention and has no underlying cause (its Cause() returns nil)
 	CauseErr bool
+	// CancelErr: injected faults are reported as context.Canceled (odd indices: wrapped with %w)
+	CancelErr bool
 	// CloseFn, when set, runs between close-begin and close-end (gates, delays).
 	CloseFn func(who Node)
 }
@@ -139,6 +142,12 @@ func (k *Core) ev(kind string, who Node) error {
 		}
 		if k.CauseErr {
 			return &OpErr{Op: kind + " of " + name}
+		}
+		if k.CancelErr {
+			if k.Idx%2 == 1 {
+				return fmt.Errorf("injected fault: %s of %s gave up: %w", kind, name, context.Canceled)
+			}
+			return context.Canceled
 		}
 		return errors.New("injected fault: " + kind + " of " + name)
 	}
